@@ -471,7 +471,7 @@ pub fn c17(ctx: &Ctx) {
         related = related.into_iter().step_by(2).collect();
     }
     subset.extend(related);
-    let filters: Vec<TopicFilter> = subset.iter().filter_map(|s| TopicFilter::try_from(s.clone()).ok()).collect();
+    let filters: Vec<TopicFilter> = subset.iter().filter_map(|s| guard(|| TopicFilter::try_from(s.clone()).ok()).ok().flatten()).collect();
     let n = filters.len();
     (0..n).into_par_iter().for_each(|i| {
         for j in 0..n {
@@ -589,11 +589,16 @@ pub fn c18_one(s: &str, doors: bool) -> Option<String> {
             if &*t != s || t.to_string() != s {
                 return Some(format!("TopicName {} reads back differently", shape(s)));
             }
-            if t.is_shared() != s.starts_with("$share/") {
-                return Some(format!("TopicName {} is_shared = {}", shape(s), t.is_shared()));
-            }
-            if t.is_sys() != s.starts_with("$SYS/") {
-                return Some(format!("TopicName {} is_sys = {}", shape(s), t.is_sys()));
+            match guard(|| (t.is_shared(), t.is_sys())) {
+                Err(m) => return Some(format!("TopicName {}: is_shared / is_sys panics: {m}", shape(s))),
+                Ok((sh, sy)) => {
+                    if sh != s.starts_with("$share/") {
+                        return Some(format!("TopicName {} is_shared = {sh}", shape(s)));
+                    }
+                    if sy != s.starts_with("$SYS/") {
+                        return Some(format!("TopicName {} is_sys = {sy}", shape(s)));
+                    }
+                }
             }
         }
         Ok(Err(e)) => {
